@@ -64,21 +64,21 @@ def main(tier, seed, replay=None):
     else:
         failed, raw, errors = [], [], ["coq build broken"]
     # ---- the property: separate processes, different hash seeds, permuted / relabelled / re-prefixed inputs
-    n = 260 if big else 26
+    n = 300 if big else 40
     nvar = 6 if big else 4
     d = tempfile.mkdtemp(prefix="c09_", dir="/var/tmp")
     jobs, cases = [], []
     try:
         for j in range(n):
             r = rng.random()
-            if r < 0.35:
+            if r < 0.3:
                 c = EC.base_case(rng)
                 opts, api, fam = rng.choice([{}, {}, {"abort_on_first": False, "allow_warnings": True}]), "validate", "nested shapes"
-            elif r < 0.6:
+            elif r < 0.5:
                 c = LV.gen_case(rng)
                 c["sg"] = S.shapes_to_rdf(c["shapes"])
                 opts, api, fam = {}, "validate", "core components"
-            elif r < 0.8:
+            elif r < 0.65:
                 c = c05.gen_case(rng)
                 opts, api, fam = {}, "validate", "sparql constraints"
             else:
